@@ -52,7 +52,7 @@ CLAIMED = {
         "Every compressed size 1..300 x chunk kind, tick gaps around the inline-delta limit, every header string length; generated raw chunk sequences (payloads aimed at the 29/30, 255/256, 65535 boundaries) and typed ddnet world histories across key-frame intervals with refused ticks and failed snaps: reader returns the same sequence / object sets, no warnings, refusals do not panic and leave the recording usable.",
         "One open known finding restricts UUID object sizes in typed histories.", "DESIGN.md 2/C15"),
     "C16": ("independent datafile/map writer + exhaustive single-field corruption, truncation, structural mutation, random bytes; totality oracle with iterator fuel; exact read-back for well-formed files",
-        "Well-formed v3/v4/v4-crude files (raw, hand-rolled stored-deflate and libz data) read back exactly through three open paths; every header/type/offset/size/item-header field set to ~60 boundary values, every truncation, multi-mutations, random bytes, and for maps every item word set to ~40 values: open + every accessor returns value or error, never panics or loops, and every image/envelope/sound/layer/data index an accepted map item hands out lies inside the item-type range or data count it refers to.",
+        "Well-formed v3/v4/v4-crude files (raw, hand-rolled stored-deflate and libz data) read back exactly through three open paths; every header/type/offset/size/item-header field set to ~60 boundary values, every truncation, multi-mutations, random bytes, and for maps every item word set to ~40 values: open + every accessor returns value or error, never panics or loops, and every image/envelope/sound/layer/data index an accepted map item hands out lies inside the item-type range or data count it refers to; the datafile accessors of every accepted file agree with each other (items/item/item_type_indices/item_type_items/find_item), a data block's bytes do not depend on the order of (failed) reads and have the declared uncompressed size.",
         "Uncompressed sizes above 16 MiB are not read (resource exhaustion is out of scope).", "DESIGN.md 2/C16"),
     "C17": ("metamorphic PBT over read-callback fragmentations + independent doc-based tick/position model; exhaustive 2- and 3-piece splits of a fixed all-kinds stream",
         "Generated server histories (all message kinds, extensions, implicit/explicit ticks, wraps) read in one piece, byte by byte, under generated schedules and every two-piece split must give identical items; items must nest in strictly increasing ticks equal to the doc pseudo-code's numbers; positions/inputs equal running wrapping sums; truncated/mutated/random streams: items or error, no panic, fuel on callbacks.",
